@@ -293,6 +293,16 @@ func genLive(seed uint64, idx uint64, thorough bool) tlive.Scenario {
 			}
 		}
 	}
+	if idx%9 == 4 && !sc.WindUp {
+		// a "never" timeout (just below the largest time.Duration) pending from the first moment on: it must not start,
+		// whatever else happens; cancelled half of the time by the script, else by the engine at the end
+		f := newFut()
+		sc.Acts = append([]tlive.Act{{G: 0, Op: "call", Fut: f, DUs: tlive.NeverUs, Far: true}}, sc.Acts...)
+		if r.Bool() {
+			add(tlive.Act{G: 0, Op: "cancel", Fut: f})
+		}
+		sc.Family += "+never"
+	}
 	return sc
 }
 
